@@ -49,6 +49,14 @@ func (k *Keeper) Transfer(goCtx context.Context, msg *types.MsgTransfer) (*types
 		return nil, err
 	}
 
+	// The receiving chain, and this chain when it refunds, only see the denomination path and parse it
+	// again. A base denomination whose second segment looks like a channel or client identifier
+	// (e.g. a native "transfer/channel-0/uatom") would be parsed as trace + base there and be treated
+	// as a different token, so it cannot be transferred safely.
+	if err := token.Denom.ValidateBaseNotHopLike(); err != nil {
+		return nil, err
+	}
+
 	packetData := types.NewFungibleTokenPacketData(token.Denom.Path(), token.Amount, msg.Sender, msg.Receiver, msg.Memo)
 
 	if err := packetData.ValidateBasic(); err != nil {
